@@ -9,6 +9,14 @@
 //!           | (6 (v…)) Vec | (7 (v…)) StaticVec | (8 ((key v)…)) keyed list
 //!           | (9 d) the i32 d (0..9) | (10 bytes) &'static str | (11 branch v) EitherOf3
 //!           | (12 (v…)) array [AnyView; N], N <= 3
+//!           | (13 kind bytes) text as 0 Arc<str>, 1 Cow::Borrowed, 2 Cow::Owned (erased: Cow -> String)
+//!           | (14 kind d) the digit d as a primitive of type `kind` (see `prim`), e.g. u8, i128, f64, char, bool, Ipv4Addr
+//!           | (15 v) the 1-tuple (v,) | tuples (3 (v…)) have 2..=8 members
+//!           | (16 n branch v) EitherOfN, n in 4 | 5 | 8 | 16 | (17 () | (v)) Result Err / Ok(v)
+//!           | (18 show_b (a?) (b?) (fa?) (fb?)) EitherKeepAlive { a, b, show_b }: `None` = "no change"; fa / fb = the
+//!             value each side holds after this step (what the from-scratch render of this step uses)
+//!           | (19 i) InertElement with the i-th of a few HTML strings
+//!           (7 with an odd number of members goes through `Fragment::new(..)` and `AnyView::from`)
 //! Every child position is an `AnyView` (`into_any()`), so a change of shape at any position
 //! is a change of the underlying type; equal shapes go through the typed `rebuild`.
 //!
@@ -18,7 +26,7 @@
 //! `(2 tag (id? hidden class? color?) (children…) old)`; `old` = 1 if this very node (hook
 //! node id) was already in the parent's subtree before the step.
 use crate::util::parent_with_siblings;
-use either_of::{Either, EitherOf3};
+use either_of::{Either, EitherOf16, EitherOf3, EitherOf4, EitherOf5, EitherOf8};
 use std::collections::HashSet;
 use tachys::{
     html::{
@@ -28,11 +36,72 @@ use tachys::{
     renderer::dom::{Kind, Node},
     view::{
         any_view::{AnyView, IntoAny},
+        either::EitherKeepAlive,
+        fragment::Fragment,
         iterators::StaticVec,
         keyed::keyed,
         Mountable, Render,
     },
 };
+
+#[derive(Debug, Clone)]
+pub struct Boom;
+impl std::fmt::Display for Boom {
+    fn fmt(&self, f: &mut std::fmt::Formatter<'_>) -> std::fmt::Result {
+        f.write_str("boom")
+    }
+}
+impl std::error::Error for Boom {}
+
+pub const INERT: [&str; 4] = [
+    "<p>inert</p>",
+    "<div class=\"a b\"><span>x</span>y</div>",
+    "<span id=\"i\"></span>",
+    "<p>other</p>",
+];
+
+/// the digit `d` (0..=9) as a primitive of the given kind; what it displays is in gen/c03.py `prim_text`
+pub fn prim(kind: i64, d: i64) -> AnyView {
+    use std::net::{IpAddr, Ipv4Addr, Ipv6Addr, SocketAddr, SocketAddrV4, SocketAddrV6};
+    use std::num::*;
+    let v4 = Ipv4Addr::new(127, 0, 0, d as u8);
+    let v6 = Ipv6Addr::new(0, 0, 0, 0, 0, 0, 0, d as u16 + 1);
+    match kind {
+        0 => (d as u8).into_any(),
+        1 => (d as u16).into_any(),
+        2 => (d as u32).into_any(),
+        3 => (d as u64).into_any(),
+        4 => (d as u128).into_any(),
+        5 => (d as usize).into_any(),
+        6 => (-(d as i8)).into_any(),
+        7 => (-(d as i16)).into_any(),
+        8 => (-d).into_any(),
+        9 => (-(d as i128)).into_any(),
+        10 => (-(d as isize)).into_any(),
+        11 => (d as f32 + 0.5).into_any(),
+        12 => (d as f64 + 0.25).into_any(),
+        13 => char::from(b'a' + d as u8).into_any(),
+        14 => (d % 2 == 1).into_any(),
+        15 => v4.into_any(),
+        16 => v6.into_any(),
+        17 => IpAddr::V4(v4).into_any(),
+        18 => SocketAddrV4::new(v4, 80).into_any(),
+        19 => SocketAddrV6::new(v6, 80, 0, 0).into_any(),
+        20 => SocketAddr::V4(SocketAddrV4::new(v4, 81)).into_any(),
+        21 => NonZeroU8::new(d as u8 + 1).unwrap().into_any(),
+        22 => NonZeroI8::new(-(d as i8) - 1).unwrap().into_any(),
+        23 => NonZeroU16::new(d as u16 + 1).unwrap().into_any(),
+        24 => NonZeroI16::new(d as i16 + 1).unwrap().into_any(),
+        25 => NonZeroU32::new(d as u32 + 1).unwrap().into_any(),
+        26 => NonZeroI32::new(d as i32 + 1).unwrap().into_any(),
+        27 => NonZeroU64::new(d as u64 + 1).unwrap().into_any(),
+        28 => NonZeroI64::new(d + 1).unwrap().into_any(),
+        29 => NonZeroU128::new(d as u128 + 1).unwrap().into_any(),
+        30 => NonZeroI128::new(d as i128 + 1).unwrap().into_any(),
+        31 => NonZeroUsize::new(d as usize + 1).unwrap().into_any(),
+        _ => NonZeroIsize::new(d as isize + 1).unwrap().into_any(),
+    }
+}
 use vsexp::{Lst, Num, Sexp};
 
 fn opt_str(s: &Sexp) -> Option<String> {
@@ -54,6 +123,12 @@ macro_rules! element {
 }
 
 pub fn to_view(v: &Sexp) -> AnyView {
+    to_view_opt(v, false)
+}
+
+/// `fresh`: the value as rendered from scratch (an EitherKeepAlive with the values its sides hold)
+pub fn to_view_opt(v: &Sexp, fresh: bool) -> AnyView {
+    let to_view = |v: &Sexp| to_view_opt(v, fresh);
     let kids = |s: &Sexp| s.list().iter().map(to_view).collect::<Vec<_>>();
     match v.at(0).num() {
         0 => v.at(1).string().unwrap().into_any(),
@@ -71,18 +146,74 @@ pub fn to_view(v: &Sexp) -> AnyView {
             }
         }
         3 => {
-            let mut k = kids(v.at(1));
-            if k.len() == 2 {
-                let b = k.pop().unwrap();
-                let a = k.pop().unwrap();
-                (a, b).into_any()
-            } else {
-                let c = k.pop().unwrap();
-                let b = k.pop().unwrap();
-                let a = k.pop().unwrap();
-                (a, b, c).into_any()
+            let mut k = kids(v.at(1)).into_iter();
+            let mut n = || k.next().unwrap();
+            match v.at(1).list().len() {
+                2 => (n(), n()).into_any(),
+                3 => (n(), n(), n()).into_any(),
+                4 => (n(), n(), n(), n()).into_any(),
+                5 => (n(), n(), n(), n(), n()).into_any(),
+                6 => (n(), n(), n(), n(), n(), n()).into_any(),
+                7 => (n(), n(), n(), n(), n(), n(), n()).into_any(),
+                _ => (n(), n(), n(), n(), n(), n(), n(), n()).into_any(),
             }
         }
+        13 => {
+            let t = v.at(2).string().unwrap();
+            match v.at(1).num() {
+                0 => std::sync::Arc::<str>::from(t.as_str()).into_any(),
+                1 => {
+                    let t: &'static str = Box::leak(t.into_boxed_str());
+                    std::borrow::Cow::Borrowed(t).into_any()
+                }
+                _ => std::borrow::Cow::<'static, str>::Owned(t).into_any(),
+            }
+        }
+        14 => prim(v.at(1).num(), v.at(2).num()),
+        15 => (to_view(v.at(1)),).into_any(),
+        16 => {
+            let child = to_view(v.at(3));
+            let b = v.at(2).num();
+            type A = AnyView;
+            match v.at(1).num() {
+                4 => match b {
+                    0 => EitherOf4::<A, A, A, A>::A(child).into_any(),
+                    1 => EitherOf4::<A, A, A, A>::B(child).into_any(),
+                    2 => EitherOf4::<A, A, A, A>::C(child).into_any(),
+                    _ => EitherOf4::<A, A, A, A>::D(child).into_any(),
+                },
+                5 => match b {
+                    0 => EitherOf5::<A, A, A, A, A>::A(child).into_any(),
+                    1 => EitherOf5::<A, A, A, A, A>::B(child).into_any(),
+                    2 => EitherOf5::<A, A, A, A, A>::C(child).into_any(),
+                    3 => EitherOf5::<A, A, A, A, A>::D(child).into_any(),
+                    _ => EitherOf5::<A, A, A, A, A>::E(child).into_any(),
+                },
+                8 => match b {
+                    0 => EitherOf8::<A, A, A, A, A, A, A, A>::A(child).into_any(),
+                    1 => EitherOf8::<A, A, A, A, A, A, A, A>::D(child).into_any(),
+                    2 => EitherOf8::<A, A, A, A, A, A, A, A>::G(child).into_any(),
+                    _ => EitherOf8::<A, A, A, A, A, A, A, A>::H(child).into_any(),
+                },
+                _ => match b {
+                    0 => EitherOf16::<A, A, A, A, A, A, A, A, A, A, A, A, A, A, A, A>::A(child).into_any(),
+                    1 => EitherOf16::<A, A, A, A, A, A, A, A, A, A, A, A, A, A, A, A>::I(child).into_any(),
+                    2 => EitherOf16::<A, A, A, A, A, A, A, A, A, A, A, A, A, A, A, A>::O(child).into_any(),
+                    _ => EitherOf16::<A, A, A, A, A, A, A, A, A, A, A, A, A, A, A, A>::P(child).into_any(),
+                },
+            }
+        }
+        17 => match v.at(1).list().first() {
+            Some(x) => Ok::<AnyView, Boom>(to_view(x)).into_any(),
+            None => Err::<AnyView, Boom>(Boom).into_any(),
+        },
+        18 => EitherKeepAlive::<AnyView, AnyView> {
+            a: v.at(if fresh { 4 } else { 2 }).list().first().map(to_view),
+            b: v.at(if fresh { 5 } else { 3 }).list().first().map(to_view),
+            show_b: v.at(1).num() != 0,
+        }
+        .into_any(),
+        19 => tachys::html::InertElement::new(INERT[v.at(1).num() as usize % INERT.len()]).into_any(),
         4 => {
             let child = to_view(v.at(2));
             if v.at(1).num() == 0 {
@@ -93,7 +224,14 @@ pub fn to_view(v: &Sexp) -> AnyView {
         }
         5 => v.at(1).list().first().map(to_view).into_any(),
         6 => kids(v.at(1)).into_any(),
-        7 => StaticVec::from(kids(v.at(1))).into_any(),
+        7 => {
+            let k = kids(v.at(1));
+            if k.len() % 2 == 1 {
+                AnyView::from(Fragment::new(k))
+            } else {
+                StaticVec::from(k).into_any()
+            }
+        }
         9 => (v.at(1).num() as i32).into_any(),
         10 => {
             let t: &'static str = Box::leak(v.at(1).string().unwrap().into_boxed_str());
@@ -118,7 +256,7 @@ pub fn to_view(v: &Sexp) -> AnyView {
         }
         _ => {
             let items: Vec<(i64, Sexp)> = v.at(1).list().iter().map(|kv| (kv.at(0).num(), kv.at(1).clone())).collect();
-            keyed(items, |kv: &(i64, Sexp)| kv.0, |_i: usize, kv: (i64, Sexp)| (|_: usize| {}, to_view(&kv.1))).into_any()
+            keyed(items, |kv: &(i64, Sexp)| kv.0, move |_i: usize, kv: (i64, Sexp)| (|_: usize| {}, to_view_opt(&kv.1, fresh))).into_any()
         }
     }
 }
@@ -175,6 +313,7 @@ pub fn run(c: &Sexp) -> Sexp {
 }
 
 fn run_case(c: &Sexp) -> Sexp {
+    crate::util::install_parser(); // InertElement
     let (npre, npost) = (c.at(0).num() as usize, c.at(1).num() as usize);
     let (parent, marker) = parent_with_siblings(npre, npost);
     let mut old = HashSet::new();
@@ -192,7 +331,7 @@ fn run_case(c: &Sexp) -> Sexp {
         let (fresh_parent, fresh_marker) = parent_with_siblings(npre, npost);
         let mut fresh_old = HashSet::new();
         collect_ids(&fresh_parent, &mut fresh_old);
-        let mut fresh = to_view(v).build();
+        let mut fresh = to_view_opt(v, true).build();
         fresh.mount(&fresh_parent, fresh_marker.as_ref());
         out.push(Lst(vec![after, children(&fresh_parent, &fresh_old)]));
     }
